@@ -212,6 +212,7 @@ pub fn run(tier: Tier) -> i32 {
         Box::new(crate::families::scale_family(true)),
         Box::new(crate::families::sorted_run_family()),
         Box::new(crate::families::r8_metadata_family()),
+        Box::new(crate::families::far_apart_family(tier.thorough())),
         Box::new(crate::families::unicode_family()),
         Box::new(crate::families::relation_family()),
         Box::new(crate::families::giant_family()),
@@ -238,7 +239,16 @@ pub fn run(tier: Tier) -> i32 {
                 acc.transitions += if lines.len() > last { (lines.len() - last) as u64 } else { 1 };
                 last = lines.len();
                 print_file_into(lines, term, &mut bytes);
-                let unis = crate::q::universes_for(lines, sp.wide());
+                let mut unis = crate::q::universes_for(lines, sp.wide());
+                if lines.len() > 5000 {
+                    // far-apart family: the filler entries between the two ends are queried in every 97th window only
+                    let n = unis.len();
+                    let mut k = 0;
+                    unis.retain(|_| {
+                        k += 1;
+                        k <= 2 || k + 2 > n || k % 97 == 0
+                    });
+                }
                 visit(&bytes, &unis, &|| file_to_json(lines, term), acc);
                 acc.sample(1, || json!({"scope": sp.name(), "mapping": esc(&bytes), "pairs": "(pinned,pinned) (pinned,current) (current,pinned) (current,current)"}));
                 acc.count(&format!("states[{}]", sp.name()), 1);
